@@ -27,6 +27,17 @@ TInit ==
   /\ cfg = Histories[1].cfg /\ steps = Histories[1].steps
   /\ WorldInit /\ MonInit /\ StoreInit /\ drift = {}
 
+\* a recorded file operation presupposes the world the driver assumed (the file exists, the generated file is
+\* there); when an earlier observation contradicts that assumption - the implementation did something the driver
+\* did not expect - the operation is skipped and noted, so that the rest of the history and the following
+\* histories are still evaluated
+Applicable(op) ==
+  CASE op.op \in {"edit", "touch", "rm"} -> files[op.f].c # 0
+    [] op.op \in {"add", "addold"}     -> files[op.f].c = 0
+    [] op.op = "ren"                   -> files[op.f].c # 0 /\ files[op.g].c = 0
+    [] op.op = "rmgen"                 -> gen.present
+    [] OTHER                           -> TRUE
+
 Step ==
   /\ l <= Len(steps)
   /\ LET s == steps[l] IN
@@ -38,7 +49,10 @@ Step ==
              /\ drift' = drift \cup
                   (IF p.ran # s.ran \/ p.exit # s.exit
                    THEN {[step |-> l, mode |-> s.mode, want |-> <<p.ran, p.exit>>, got |-> <<s.ran, s.exit>>]} ELSE {})
-     ELSE /\ FileOp(s) /\ UNCHANGED <<svars, drift>>
+     ELSE IF Applicable(s)
+     THEN /\ FileOp(s) /\ UNCHANGED <<svars, drift>>
+     ELSE /\ UNCHANGED <<vars>>
+          /\ drift' = drift \cup {[step |-> l, mode |-> "file-operation-not-applicable", want |-> <<>>, got |-> <<>>]}
   /\ l' = l + 1 /\ UNCHANGED <<h, steps>>
 
 NextHistory ==
